@@ -20,7 +20,7 @@ var classes = map[string][]string{
 	"C06": {"prefix", "closed-early", "not-closed", "leak", "leak-after-cancel", "not-closed-after-cancel", "panic", "deadlock", "fold-partial"},
 	"C07": {"result", "errors", "calls", "not-closed", "prefix", "closed-early", "panic", "deadlock", "leak"},
 	"C08": {"send-blocked", "fifo", "lost", "closed-early", "not-closed", "sender-close", "panic", "deadlock", "linearizability"},
-	"C09": {"result", "errors", "calls", "prefix", "closed-early", "not-closed", "leak", "leak-after-cancel", "not-closed-after-cancel", "panic", "deadlock"},
+	"C09": {"closed-before-workers", "result", "errors", "calls", "prefix", "closed-early", "not-closed", "leak", "leak-after-cancel", "not-closed-after-cancel", "panic", "deadlock"},
 	"C10": {"result", "not-closed", "panic", "deadlock", "leak"},
 	"C11": {"result", "prefix", "calls", "pace", "closed-early", "leak-after-cancel", "not-closed-after-cancel", "panic", "deadlock", "errors"},
 	"C12": {"result", "prefix", "closed-early", "not-closed", "panic", "deadlock", "leak"},
@@ -87,6 +87,20 @@ func interleaveOK(got []int, inputs [][]int) bool {
 	return true
 }
 
+// strip removes the values a failing arrow may or may not have emitted before failing
+func (e expectT) strip(got []int) []int {
+	if len(e.optional) == 0 {
+		return got
+	}
+	out := got[:0:0]
+	for _, v := range got {
+		if !e.optional[v] {
+			out = append(out, v)
+		}
+	}
+	return out
+}
+
 // ---------------------------------------------------------------- the generic online monitor
 
 // issuedCase returns a copy of the case whose inputs are what has been commanded so far.
@@ -124,7 +138,7 @@ func (c *caseT) earlyDone() bool {
 		return len(in) >= c.N
 	case "TakeWhile":
 		for _, x := range in {
-			if !c.predW(x) {
+			if !c.okPredW(x) {
 				return true
 			}
 		}
@@ -161,7 +175,7 @@ func (w *world) monitor() {
 			break
 		}
 		s := p.snap()
-		got := s.ints()
+		got := e.strip(s.ints())
 		exp := e.outs[j]
 		ok := true
 		switch e.kind {
@@ -179,13 +193,25 @@ func (w *world) monitor() {
 				w.bad("prefix", "%s delivered %v, which is not a prefix (%s) of the uncancelled result %v for input %v", p.name, got, e.kind, exp, c2.Inputs)
 			}
 		}
-		if s.closed && !w.cancelled && c2.Stage != "New" {
+		if s.closed && !w.cancelled && c2.NilInput {
+			w.bad("closed-early", "%s reported closed although a nil channel is among the inputs (it never closes) and the context is not cancelled", p.name)
+		} else if s.closed && !w.cancelled && c2.Stage != "New" {
 			if !(w.inputsClosedAndConsumed(ins) || c2.earlyDone()) {
 				w.bad("closed-early", "%s reported closed while an input is still open or undelivered (issued %v, sent %v, buffered %d) and the context is not cancelled", p.name, c2.Inputs, ins[0].sent, ins[0].buffered)
 			} else if !(e.kind == "seq" && slices.Equal(got, exp) || e.kind != "seq" && sameMultiset(got, exp) || e.partial) {
 				if !w.stageStoppedByError(c2) {
 					w.bad("closed-early", "%s closed after delivering %v, but the complete result for input %v is %v", p.name, got, c2.Inputs, exp)
 				}
+			}
+		}
+	}
+	if enabled("closed-before-workers") {
+		for _, p := range w.allPorts() {
+			if s := p.snap(); s.closed {
+				if g := w.libGoroutines(); g > w.persist {
+					w.bad("closed-before-workers", "%s reports closed while %d goroutine(s) of the stage are still running (outputs must close only after every worker has finished):\n%s", p.name, g, strings.Join(w.census(), "\n--\n"))
+				}
+				break
 			}
 		}
 	}
@@ -269,7 +295,7 @@ func (w *world) endComplete() {
 		if j >= len(e.outs) {
 			break
 		}
-		got := p.snap().ints()
+		got := e.strip(p.snap().ints())
 		ok := slices.Equal(got, e.outs[j])
 		if e.kind == "multiset" {
 			ok = sameMultiset(got, e.outs[j])
@@ -474,7 +500,7 @@ func runCase(t *testing.T, c *caseT, h hooks) *world {
 			w = &world{c: c}
 		}
 		if strings.Contains(msg, "deadlock") {
-			if len(w.viol) == 0 {
+			if len(w.viol) == 0 && !c.NilInput {
 				w.bad("deadlock", "bubble ended with goroutines blocked forever: %s", msg)
 			}
 		} else {
